@@ -2,6 +2,8 @@ import TTModel.Basic
 import TTModel.Algebra
 import TTModel.Reduce
 import TTModel.Extras
+import TTModel.Reduce2
+import TTModel.Trunc
 import TTModel.Scalar
 /-!
 # Line-protocol driver: one operation per input line, one canonical outcome per output line.
@@ -197,6 +199,13 @@ def run : PM String := do
                else pure (showTT k r)
       | _ => pure (showTT k r)
   | "dot" => do let (_, x) ← tt; let (_, y) ← tt; pure s!"sc {dotFull GRat.conj x y}"
+  | "dotp" => do
+      let (_, x) ← tt; let (_, y) ← tt; let ax ← natList
+      let r := dotPartial GRat.conj x y ax
+      match r with
+      | [c] => if c.m == 1 && c.n == 1 && c.r0 == 1 && c.r1 == 1 then pure s!"sc {c.get 0 0 0 0}"
+               else pure (showTT false (r.map freeze))
+      | _ => pure (showTT false (r.map freeze))
   | "normsq" => do let (_, x) ← tt; pure s!"sc {normSq GRat.conj x}"
   | "bilinear" => do
       let (_, x) ← tt; let (_, A) ← tt; let (_, y) ← tt
@@ -226,21 +235,21 @@ def run : PM String := do
         let bi := idx.take nb
         forward A bias (fun ns => f (bi ++ ns)) (idx.drop nb)))
   | "getitem" => do
-      let (_, x) ← tt; let k ← nat; let ss ← many k sel
-      match getitem ss.toList x with
+      let (_, x) ← tt; let ell ← nat; let k ← nat; let ss ← many k sel
+      match getitem (expandEll ell ss.toList x) x with
       | none => pure "err InvalidArguments"
-      | some r =>
+      | some (r, allInt) =>
         match r with
-        | [c] => if c.m == 1 && c.n == 1 then pure s!"sc {c.get 0 0 0 0}" else pure (showTT false r)
+        | [c] => if allInt && c.m == 1 && c.n == 1 then pure s!"sc {c.get 0 0 0 0}" else pure (showTT false r)
         | _ => pure (showTT false r)
   | "getitemM" => do
       let (_, x) ← tt; let k ← nat
       let ss ← many k (do let a ← sel; let b ← sel; pure (a, b))
       match getitemM ss.toList x with
       | none => pure "err InvalidArguments"
-      | some r =>
+      | some (r, allInt) =>
         match r with
-        | [c] => if c.m == 1 && c.n == 1 then pure s!"sc {c.get 0 0 0 0}" else pure (showTT true r)
+        | [c] => if allInt && c.m == 1 && c.n == 1 then pure s!"sc {c.get 0 0 0 0}" else pure (showTT true r)
         | _ => pure (showTT true r)
   | "cat" => do
       let dim ← nat; let k ← nat
